@@ -340,6 +340,9 @@ def visits_all(ctx, cfg, a, base, length, sink, sink_iter_res, sink_slice_res):
     sinks = [c for c in pc if c.fn == sink]
     others = [c for c in pc if c.fn != sink and c.fn not in ("core::slice::<impl [T]>::iter_mut", "core::slice::<impl [T]>::iter", "core::iter::IntoIterator::into_iter",
                                                              "core::iter::Iterator::next", "core::iter::Iterator::for_each")]
+    peel = _peeling_loop(a, pc, base, length, sink)
+    if peel is not None:
+        return peel
     if others:
         return False, "calls outside the recognised complete traversals: %s" % sorted({c.fn for c in others})
     nexts = [c for c in pc if c.fn == "core::iter::Iterator::next"]
@@ -410,6 +413,50 @@ def visits_all(ctx, cfg, a, base, length, sink, sink_iter_res, sink_slice_res):
         ok, det = _loop_cover(a, n, good, rets)
         return ok and none_only, "form D: one next() site on the unadapted full-view iterator; returns only on None: %s; %s" % (none_only, det)
     return False, "no recognised complete traversal (sink calls=%d, next sites=%d, for_each=%d)" % (len(sinks), len(nexts), len(fes))
+
+
+def _peeling_loop(a, pc, base, length, sink):
+    """form G: `while let Some((head, tail)) = take(&mut rest).split_first_mut() { sink(head); rest = tail }` - a slice that starts as the full
+    view loses its first element in every step (handed to the sink), its end staying where it was (the merged pointer's invariant
+    off + size * len == E, established by the abstract interpreter at the loop head), until it is empty: by induction every element once,
+    in order. Returns None when the body has no such driver."""
+    from .poly import prove, Poly as _P
+    drv = [c for c in pc if c.fn in ("core::slice::<impl [T]>::split_first_mut", "core::slice::<impl [T]>::split_first") and c.ret is not None and c.ret[0] == "O" and a.reaches(c.bb, c.bb)]
+    if len(drv) != 1:
+        return None
+    d = drv[0]
+    sinks = [c for c in pc if c.fn == sink]
+    allowed = ("core::mem::take", "core::slice::<impl [T]>::split_first_mut", "core::slice::<impl [T]>::split_first")
+    extra = [c.fn for c in pc if c.fn != sink and c.fn not in allowed]
+    if extra:
+        return False, "form G: calls besides the peeling driver and the sink: %s" % sorted(set(extra))
+    sl = d.args[0]
+    if not (sl[0] == "P" and sl[1] == base and sl[3] is not None and d.targs):
+        return False, "form G: the slice being peeled is not a view of the object: %s" % vstr(sl)
+    S_ = a.tenv.size(d.targs[0])
+    head = d.ret[1][2][0]
+    good = {c.bb for c in sinks if c.args[0] == head}
+    if not sinks or len(good) != len(sinks):
+        return False, "form G: %s is called on something other than the element just peeled off" % sink.split("::")[-1]
+    # the end stays put and is the end of the full view
+    inv = prove(("==", sl[2] + S_ * sl[3] - S_ * length), a.poly_facts(d.facts))
+    # the slice the loop starts with is the full view: the carried cell's value on entry
+    offs = [x for x in sl[2].atoms() if isinstance(x, tuple) and x[0] == "off" and isinstance(x[1], tuple) and x[1][0] == "phi"]
+    start_ok = False
+    if len(offs) == 1:
+        H, cell = offs[0][1][1], offs[0][1][2]
+        loop = {x for x in range(len(a.blocks)) if a.reaches(x, d.bb) and a.reaches(d.bb, x)}
+        inits = [x["val"] for x in a.assigns if x["cell"] == cell and x["site"][0] not in loop and a.dominates(x["site"][0], H)]
+        for c_ in a.calls:
+            if c_.term.get("dest") and (("local", c_.term["dest"]["l"]), ()) == cell and not c_.term["dest"]["p"] and c_.bb not in loop and a.dominates(c_.bb, H) and c_.ret is not None:
+                inits.append(c_.ret)
+        start_ok = bool(inits) and all(is_full_view(v, base, length) for v in inits)
+    elif not sl[2].t and sl[3] == length:
+        start_ok = True
+    none_only = bool(a.returns) and all(("variant", d.ret, 0) in r["facts"] for r in a.returns)
+    ok, det = _loop_cover(a, d, good, {r["bb"] for r in a.returns})
+    return bool(inv and start_ok and none_only and ok), ("form G: a slice peeled from the front (split_first): it starts as the full N-element view: %s; its end stays the end of the view: %s; returns only "
+                                                         "when it is empty: %s; %s" % (start_ok, bool(inv), none_only, det))
 
 
 def _counting_loop(a, z, base, length, sink):
@@ -597,13 +644,13 @@ def pipe_max(a, t):
     return None
 
 
-def reachable_panics(a):
+def reachable_panics(a, checks=True):
     """Ways a body can panic on a normal (non-cleanup) path, as far as they can be told: compiler-inserted checks and explicit panics whose
     failing condition is not contradicted by the facts they are reached under, and std calls whose documented panic condition is not excluded
     (split_at: mid <= len; Option / Result unwrap / expect: the right variant; slice indexing by a number: index < len). -> list of strings"""
     from .poly import prove as _prove, Poly as _Pl
     out = []
-    for x in getattr(a, "asserts", []):
+    for x in (getattr(a, "asserts", []) if checks else []):
         if not x["cleanup"] and not _prove((">=", _Pl.const(-1)), a.poly_facts(x["fail_facts"])):
             out.append("check `%s` can fail" % (x["msg"] or "assert")[:60])
     for c in a.calls:
